@@ -6,7 +6,10 @@ Regenerated from the working tree on every run:
     the ``type_map`` literal -> ``gen_type_map``, the Arrow type chosen by each container / enum branch
   * ``_build_result_schema`` (vgi_rpc/rpc/_types.py): whether the Optional wrapper is stripped before the
     dataclass test -> ``gen_result_opt_first`` (the model's ``opt_first`` parameter)
-  * ``_is_optional_type``, ``_build_params_schema``, ``_deserialize_value``, ``_deserialize_params``,
+  * ``_is_optional_type`` (vgi_rpc/utils.py): whether it looks through ``Annotated[X | None, ...]`` and re-wraps
+    -> ``gen_opt_through_ann`` (the model's ``is_opt`` is the shape with the look-through; the older shape is accepted
+    by the translator and refused by the tie)
+  * ``_build_params_schema``, ``_deserialize_value``, ``_deserialize_params``,
     ``_validate_params``, ``_validate_result``, ``_send_request`` (merge of defaults) and the result
     extraction of ``_read_unary_response`` / ``_build_result_batch`` must have exactly the statement
     shapes the model was written from (compared as normalised source; log statements ignored).
@@ -191,13 +194,27 @@ def result_opt_first(types: Path) -> bool:
 
 
 # ---------------------------------------------------------------- shapes that must be exactly as modelled
+_IS_OPT_HEAD = [
+    "origin = get_origin(python_type)",
+    "args = get_args(python_type)",
+    "if origin is UnionType or origin is Union:\n    non_none_types = [t for t in args if t is not type(None)]\n    if len(non_none_types) == 1 and len(args) == 2:\n        return (non_none_types[0], True)",
+]
+_IS_OPT_THROUGH_ANN = "if origin is Annotated:\n    inner, nullable = _is_optional_type(args[0])\n    if nullable:\n        return (Annotated[inner, *args[1:]], True)"
+_IS_OPT_TAIL = ["return (python_type, False)"]
+
+
+def opt_through_ann(utils: Path) -> bool:
+    """_is_optional_type: does it look through Annotated[X | None, ...] and report (Annotated[X, ...], True)?"""
+    got = _norm(_body(_func(utils, "_is_optional_type")))
+    if got == _IS_OPT_HEAD + _IS_OPT_TAIL:
+        return False
+    if got == _IS_OPT_HEAD + [_IS_OPT_THROUGH_ANN] + _IS_OPT_TAIL:
+        return True
+    _expect("_is_optional_type", got, _IS_OPT_HEAD + [_IS_OPT_THROUGH_ANN] + _IS_OPT_TAIL)
+    raise AssertionError
+
+
 _SHAPES: list[tuple[str, str, list[str]]] = [
-    ("utils", "_is_optional_type", [
-        "origin = get_origin(python_type)",
-        "args = get_args(python_type)",
-        "if origin is UnionType or origin is Union:\n    non_none_types = [t for t in args if t is not type(None)]\n    if len(non_none_types) == 1 and len(args) == 2:\n        return (non_none_types[0], True)",
-        "return (python_type, False)",
-    ]),
     ("types", "_build_params_schema", [
         "fields: list[pa.Field[pa.DataType]] = []",
         "for name, hint in hints.items():\n    if name in ('self', 'return'):\n        continue\n    inner, is_nullable = _is_optional_type(hint)\n    base = _unwrap_annotated(inner)\n"
@@ -272,10 +289,12 @@ def generate(repo: Path) -> str:
     conv = convert_order(repo / "vgi_rpc" / "rpc" / "_wire.py")
     order, tmap = infer_tables(repo / "vgi_rpc" / "utils.py")
     flag = result_opt_first(repo / "vgi_rpc" / "rpc" / "_types.py")
+    through = opt_through_ann(repo / "vgi_rpc" / "utils.py")
     return (
         "From Coq Require Import List NArith.\nImport ListNotations.\n"
         f"Definition gen_convert_order : list N := {_clist(conv)}.\n"
         f"Definition gen_infer_order : list N := {_clist(order)}.\n"
         "Definition gen_type_map : list (N * N) := [" + "; ".join(f"({a}%N, {b}%N)" for a, b in tmap) + "].\n"
         f"Definition gen_result_opt_first : bool := {'true' if flag else 'false'}.\n"
+        f"Definition gen_opt_through_ann : bool := {'true' if through else 'false'}.\n"
     )
